@@ -12,9 +12,8 @@ package tlstcp
 //@
 //@ struct listener
 //@   lock lock level 50
-//@   guarded_by lock: maxRecvSize config
+//@   guarded_by lock: maxRecvSize config lc l bound
 //@   immutable: addr proto hs closeQ
-//@   racy: l bound because written by Listen and read by Accept/Address/Close outside the lock; no consistent discipline in the code (outside the guard sweep)
 //@
 //@ func (*dialer).Dial
 //@   before call:SetOption#1 assert arg0 == mangos.OptionMaxRecvSize && arg1 == iface(maxRecvSize) && maxRecvSize == at("call:Unlock#1", d.maxRecvSize)
